@@ -77,8 +77,11 @@ def compare(prog, rec, doc=None, lines=None):
     exp = expected_captions(prog, lines)
     if not exp:
         return None
+    reader = SP.used_reader(prog.get("reuse"), doc)
+    if prog.get("reuse"):
+        rec.label("reused-reader:" + prog["reuse"][0])
     with must("SCCReader.read"):
-        cs = SCCReader().read(doc)
+        cs = reader.read(doc)
     caps = cs.get_captions(cs.get_languages()[0])
     require(len(caps) == len(exp),
             lambda: f"{len(caps)} captions read, the decoder shows {len(exp)} "
@@ -159,12 +162,16 @@ def check_program(case, rec):
     rec.label(f"captions:{len(case['captions'])}")
 
 
+def _with_reuse(strategy):
+    return st.tuples(strategy, SP.reuse_strategy()).map(lambda t: dict(t[0], reuse=t[1]))
+
+
 def single_caption_strategy(tier):
-    return SP.program_strategy(max_captions=1)
+    return _with_reuse(SP.program_strategy(max_captions=1))
 
 
 def multi_caption_strategy(tier):
-    return SP.program_strategy(max_captions=4)
+    return _with_reuse(SP.program_strategy(max_captions=4))
 
 
 # ------------------------------------------------------------------ exhaustive legs
